@@ -75,10 +75,58 @@ def regionOp (j : Json) : R Json := do
        ("flux", ofRats (Rg.faces.map (fun f => f.flux Rg G))),
        ("pres", ofRats (Rg.faces.map (fun f => f.pres Rg G)))]))
 
+def jPair (j : Json) : R (Nat × Rat) := do
+  match j with
+  | .arr a =>
+    if h : a.size = 2 then do
+      let c ← jNat a[0]
+      let s ← jRat a[1]
+      pure (c, s)
+    else throw "face_cells entry must be [cell, sign]"
+  | _ => throw "face_cells entry must be [cell, sign]"
+
+def colJson (c : List Rat × List Rat) : Json := obj [("flux", ofRats c.1), ("pres", ofRats c.2)]
+
+/-- op "mpfa2d": the whole 2-D grid; answers the four matrices column by column -/
+def mpfa2dOp (j : Json) : R Json := do
+  let nodes ← fRatss j "nodes"
+  let faceNodes ← fNatss j "face_nodes"
+  let faceCells ← field j "face_cells" >>= jList (jList jPair)
+  let cc ← fRatss j "cc"
+  let fc ← fRatss j "fc"
+  let fn ← fRatss j "fn"
+  let perm ← field j "perm" >>= jList (jList (jList jRat))
+  let isDir ← field j "is_dir" >>= jList jBool
+  let eta ← fRat j "eta"
+  let G : Grid2 := { nodes := nodes, faceNodes := faceNodes, faceCells := faceCells, cellCenters := cc,
+                     faceCenters := fc, faceNormals := fn, perm := perm, isDir := isDir, eta := eta }
+  let wf := decide G.WF
+  match G.certs with
+  | none => pure (obj [("wf", Json.bool wf), ("solved", Json.bool false)])
+  | some Ls =>
+    let cellCols := (List.range G.numCells).map (fun c => colJson (G.apply Ls (Grid2.unit G.numCells c) []))
+    let faceCols := (List.range G.numFaces).map (fun f =>
+      if G.isBoundary f then colJson (G.apply Ls [] (Grid2.unit G.numFaces f)) else Json.null)
+    let affOut : List (String × Json) ←
+      match j.getObjVal? "a" with
+      | .ok _ => do
+          let a ← fRats j "a"
+          let b ← fRat j "b"
+          let K ← fRatss j "K"
+          let d := G.affineData K a b
+          let r := G.apply Ls d.1 d.2
+          pure [("aff", colJson r),
+                ("exact_flux", ofRats ((List.range G.numFaces).map (fun f => -(nKg (G.fnAt f) K a)))),
+                ("exact_pres", ofRats ((List.range G.numFaces).map (fun f => affine a b (G.fcAt f))))]
+      | .error _ => pure []
+    pure (obj ([("wf", Json.bool wf), ("solved", Json.bool true),
+                ("cell_cols", Json.arr cellCols.toArray), ("face_cols", Json.arr faceCols.toArray)] ++ affOut))
+
 def step (j : Json) : R Json := do
   let op ← fStr j "op"
   match op with
   | "region" => regionOp j
+  | "mpfa2d" => mpfa2dOp j
   | _ => throw s!"unknown op {op}"
 
 def main : IO Unit := runPure step
